@@ -19,7 +19,11 @@
 (*       "no agreement" is reported only when no polled snapshot was uniform, *)
 (*       not before the wait has elapsed, and the last poll is not earlier    *)
 (*       than the wait minus one poll gap;                                    *)
-(*   (c) a schema-changing request's result records that outcome.             *)
+(*   (c) a schema-changing request's result records that outcome; when the    *)
+(*       wait does not complete at all - an exception escapes from it while   *)
+(*       it is still polling (the coordinator's connection is closed under    *)
+(*       it: ConnectionShutdown) - agreement was not reached and the result   *)
+(*       records exactly that (action Abort).                                 *)
 (* The number and the instants of the polls are an environment choice here:   *)
 (* ANY schedule whose first poll comes within MaxGap of the start and whose   *)
 (* consecutive polls are at most MaxGap apart is a behaviour of this          *)
@@ -60,7 +64,7 @@ VARIABLES wait, mode,   \* configuration
           snap,         \* what the last poll saw
           sawUniform,   \* some poll saw a uniform snapshot (history)
           status,       \* "polling" | "agreed" (a uniform snapshot was just polled) | "done"
-          verdict,      \* "unset" | "yes" | "no": the reported outcome
+          verdict,      \* "unset" | "yes" | "no" | "raised": the reported outcome / an exception escaped from the wait
           endAt,        \* instant at which the outcome was reported
           future,       \* "n/a" | "unset" | "yes" | "no": ResponseFuture.is_schema_agreed
           act
@@ -106,13 +110,28 @@ Finish(v, at) ==
     /\ act' = [name |-> "Finish", v |-> v, at |-> at]
     /\ UNCHANGED <<wait, mode, polled, last, snap, sawUniform>>
 
+\* an exception escapes from wait_for_schema_agreement while it is polling (the poll in flight is never answered);
+\* "direct": it reaches the caller; "ddl_*": refresh_schema_and_set_result logs it, schedules a background refresh and
+\* still delivers the request's result, whose is_schema_agreed (fv) must say that agreement was not reached
+Abort(fv, at) ==
+    /\ status = "polling"
+    /\ at >= last
+    /\ fv = (IF mode = "direct" THEN "n/a" ELSE "no")
+    /\ status' = "done"
+    /\ verdict' = "raised"
+    /\ endAt' = at
+    /\ future' = fv
+    /\ act' = [name |-> "Abort", v |-> fv, at |-> at]
+    /\ UNCHANGED <<wait, mode, polled, last, snap, sawUniform>>
+
 Next == \/ \E s \in Snaps, at \in 0..Horizon : Poll(s, at)
         \/ \E v \in {"yes", "no"}, at \in 0..Horizon : Finish(v, at)
+        \/ \E fv \in {"n/a", "no"}, at \in 0..Horizon : Abort(fv, at)
 Spec == Init /\ [][Next]_vars /\ WF_vars(Next)
 
 -----------------------------------------------------------------------------
 TypeOK == /\ status \in {"polling", "agreed", "done"}
-          /\ verdict \in {"unset", "yes", "no"}
+          /\ verdict \in {"unset", "yes", "no", "raised"}
           /\ future \in {"n/a", "unset", "yes", "no"}
 
 \* (a) agreement is reported exactly when the live versions form a single version
@@ -126,7 +145,8 @@ NoAgreementOnlyAfterWait == verdict = "no" => /\ ~sawUniform
 KeepsPolling == polled => last <= Horizon
 
 \* (c) the schema-changing request's result records the outcome
-FutureRecords == /\ status = "done" /\ mode # "direct" => future = verdict
+FutureRecords == /\ status = "done" /\ mode # "direct" => future = (IF verdict = "raised" THEN "no" ELSE verdict)
+                 /\ future = "yes" => verdict = "yes"                \* never claims an agreement that was not observed
                  /\ status # "done" => future \in {"n/a", "unset"}
                  /\ mode = "direct" <=> future = "n/a"
 
@@ -140,6 +160,7 @@ Witness_NoneCounts     == ~(polled /\ status = "polling" /\ \A p \in KPeers : sn
 Witness_Timeout        == ~(verdict = "no")
 Witness_DenseSchedule  == ~(verdict = "no" /\ endAt = wait)
 Witness_FutureYesNoMeta == ~(future = "yes" /\ mode = "ddl_nometa")
+Witness_AbortAfterPolls == ~(verdict = "raised" /\ polled /\ mode # "direct")
 
 ASSUME TLCSet(2, {})
 WitnessesHere == (IF ~Witness_AgreeLater THEN {"Witness_AgreeLater"} ELSE {})
@@ -149,6 +170,7 @@ WitnessesHere == (IF ~Witness_AgreeLater THEN {"Witness_AgreeLater"} ELSE {})
             \cup (IF ~Witness_Timeout THEN {"Witness_Timeout"} ELSE {})
             \cup (IF ~Witness_DenseSchedule THEN {"Witness_DenseSchedule"} ELSE {})
             \cup (IF ~Witness_FutureYesNoMeta THEN {"Witness_FutureYesNoMeta"} ELSE {})
+            \cup (IF ~Witness_AbortAfterPolls THEN {"Witness_AbortAfterPolls"} ELSE {})
 RecordWitnesses == TLCSet(2, TLCGet(2) \cup WitnessesHere)
 PrintWitnesses == PrintT(<<"WITNESSES", TLCGet(2)>>)
 =============================================================================
